@@ -216,7 +216,13 @@ func (c *Cache[K, V]) List() map[K]*Item[V] {
 	c.mu.RLock()
 	defer c.mu.RUnlock()
 
-	return c.items
+	// A copy: the caller reads the result without holding the cache's lock.
+	items := make(map[K]*Item[V], len(c.items))
+	for k, item := range c.items {
+		items[k] = item
+	}
+
+	return items
 }
 
 // Count returns the number of existing items in the cache.
